@@ -14,6 +14,83 @@ ID = "C15"
 LEVEL = "model_checking"
 
 
+def burst_send_growth(ctx, nfiles):
+    """Growth beyond C15: the replay tool burst_send.py (real Application object, fake
+    sockets) judged against spec/BurstSend.tla."""
+    import contextlib
+    import io
+    import data_dump
+    import trxd_drv as D
+    import fakesock
+    import udp_link
+    import app_common
+    import burst_send
+    rng = ctx.rng
+    tmp = os.path.join(ctx.scratch, "bs")
+    os.makedirs(tmp, exist_ok=True)
+    app_common.ApplicationBase.app_init_logging = lambda self_, argv_: None
+
+    class _Sig:
+        SIGINT = 2
+
+        @staticmethod
+        def signal(*a):
+            return None
+    burst_send.signal = _Sig
+    traces = []
+    for fi in range(nfiles):
+        path = os.path.join(tmp, "b%d.cap" % fi)
+        ddf = data_dump.DATADumpFile(path)
+        n = rng.randint(1, 8)
+        for _ in range(n):
+            d = D.rand_tx(rng) if rng.random() < 0.5 else D.rand_rx(rng)
+            if d["burst"]["has"] and len(d["burst"]["bits"]) > 148:
+                continue
+            d["fn"] = rng.choice([0, 10, 11, 12, 100, 2715647, rng.randrange(2715648)])
+            ddf.append_msg(D.mk_tx(d) if d["cls"] == "tx" else D.mk_rx(d))
+        ddf.f.flush()
+        del ddf
+        data = open(path, "rb").read()
+        ev = []
+        for _ in range(6):
+            a = dict(mode=rng.choice(["TRX", "L1"]), base=rng.choice([6700, 5700, 7000]),
+                     skip=rng.choice([-1, -1, 0, 1, 2, 5, 9]), count=rng.choice([-1, -1, 1, 2, 5]),
+                     tn=rng.choice([-1, -1, -1, 0, 3, 7]), fnlt=rng.choice([-1, -1, -1, 2715647, 100, 11]), fngt=rng.choice([-1, -1, -1, 0, 11, 100]))
+            argv = ["burst_send", "-i", path, "-m", a["mode"], "-p", str(a["base"])]
+            for opt, key in (("--skip", "skip"), ("--count", "count"), ("--timeslot", "tn"), ("--frame-num-lt", "fnlt"), ("--frame-num-gt", "fngt")):
+                if a[key] >= 0:
+                    argv += [opt, str(a[key])]
+            net = fakesock.Net()
+            udp_link.socket = net
+            old = sys.argv
+            sys.argv = argv
+            rc = 0
+            try:
+                with contextlib.redirect_stdout(io.StringIO()):
+                    app = burst_send.Application()
+                    try:
+                        app.run()
+                    except SystemExit as e:
+                        rc = int(e.code or 0)
+            finally:
+                sys.argv = old
+            outs = [dict(port=dst[1], raw=list(dat)) for (_s, dat, dst) in net.take()]
+            bind = net.sockets[0].bound[1] if net.sockets else -1
+            ev.append(dict(e="run", args=a, outs=outs, bind=bind, rc=rc))
+            del app
+        os.unlink(path)
+        traces.append(dict(id="bs%d" % fi, cfg=dict(file=list(data)), ev=ev))
+    res, stats = tlc.validate_traces("BurstSendTrace.tla", "BurstSendTrace.cfg", traces, scratch=ctx.scratch, chunk="balance", parallel=3)
+    ctx.add_tv("TV BurstSendTrace (growth: burst_send replay tool)", stats, len(traces))
+    bad = [v for v in res if v["reached"] != v["n"]]
+    ctx.extra["growth_burst_send"] = dict(files=len(traces), runs=sum(len(t["ev"]) for t in traces),
+                                          datagrams=sum(len(e["outs"]) for t in traces for e in t["ev"]),
+                                          rejected=[dict(id=v["id"], at=v["reached"] + 1, tag=v["tag"]) for v in bad][:5])
+    # observations on code outside the listed properties are recorded, not raised as C15 violations
+    if bad:
+        ctx.log("growth: burst_send deviates from spec/BurstSend.tla:", ctx.extra["growth_burst_send"]["rejected"])
+
+
 def _raw_read(rd, kind, a, b):
     try:
         if kind == "all":
@@ -35,6 +112,7 @@ def run(ctx):
         r = tlc.run("DataDumpMC.tla", "MC_DataDump4.cfg", workers=8, timeout=3000)
         ctx.require_ok("MC DataDumpMC (<=4 messages)", r)
 
+    burst_send_growth(ctx, ctx.pick(12, 300))
     rng = ctx.rng
     nfiles = ctx.pick(20, 600)
     traces = []
